@@ -396,7 +396,8 @@ fn run_ram(r: &mut Rng, n: u64) {
             let isb = is_ram_bundle_slice(&v);
             match RamBundle::parse_indexed_from_slice(&v) {
                 Err(_) => format!("err {}", isb),
-                Ok(b) => { let ms: Vec<String> = (0..6usize).chain([u32::MAX as usize, 1 << 40, usize::MAX / 8, 1 << 61, usize::MAX - 1, usize::MAX]).map(|k| match b.get_module(k) { Ok(None) => "none".into(), Ok(Some(m)) => format!("={}", hex(m.data())), Err(_) => "err".to_string() }).collect();
+                Ok(b) => { let _warm: usize = b.iter_modules().take(8).count() + (0..6usize).filter(|&k| b.get_module(k).is_ok()).count() + b.startup_code().map(|s| s.len()).unwrap_or(0);   // every access is made a second time below: what is printed is the answer of the SECOND round (a bundle is immutable; nothing may be carried over from an earlier call)
+                    let ms: Vec<String> = (0..6usize).chain([u32::MAX as usize, 1 << 40, usize::MAX / 8, 1 << 61, usize::MAX - 1, usize::MAX]).map(|k| match b.get_module(k) { Ok(None) => "none".into(), Ok(Some(m)) => format!("={}", hex(m.data())), Err(_) => "err".to_string() }).collect();
                     // the iterator is advanced a bounded number of steps only: a header may declare 2^32-1 modules
                     let it: Vec<String> = b.iter_modules().take(8).map(|x| match x { Ok(m) => format!("{}={}", m.id(), hex(m.data())), Err(_) => "err".into() }).collect();
                     format!("ok {} {} {} {} {}", b.module_count(), b.startup_code().map(|s| hex(s)).unwrap_or("err".into()), ms.join(","), isb, it.join(",")) }
@@ -425,7 +426,7 @@ fn run_locate(r: &mut Rng, n: u64) {
         if long_line { t.extend(std::iter::repeat(b'x').take(start - 1)); t.push(b'\n'); } else { while t.len() + 8 <= start { t.extend(b"var a;\r\n"); } while t.len() + 1 < start { t.push(b';'); } if t.len() < start { t.push(b'\n'); } }
         t.extend(if (d + mult) % 2 == 0 { &b"//# sourceMappingURL=big.map"[..] } else { &b"//@ sourceMappingURL=old.map\n//# sourceMappingURL=second.map\n"[..] });
         if d % 5 != 0 || !long_line { locate_case(&format!("x{}", k), &t); } k += 1; } } }
-    let parts = ["foo();", "", "//# sourceMappingURL=a.map", "//@ sourceMappingURL=b.map", " //# sourceMappingURL=c.map", "x //# sourceMappingURL=d.map", "//# sourceMappingURL=", "//# sourceMappingURL=  e.map \t", "//#sourceMappingURL=f.map", "//# sourcemappingurl=h", "//# sourceMappingURL=\u{a0}g.map\u{a0}", "s=\"\u{1f600} sourceMappingURL=x\";", "\u{65e5}a sourceMappingURL=y", "a();//# sourceMappingURL=glued.map", "\u{e9}# sourceMappingURL=z", "// sourceMappingURL=w"];
+    let parts = ["foo();", "", "glob(\"src/*\");", "/* banner", " * more */", "/* closed */ x();", "a = `", "<!--", "//# sourceMappingURL=a.map", "//@ sourceMappingURL=b.map", " //# sourceMappingURL=c.map", "x //# sourceMappingURL=d.map", "//# sourceMappingURL=", "//# sourceMappingURL=  e.map \t", "//#sourceMappingURL=f.map", "//# sourcemappingurl=h", "//# sourceMappingURL=\u{a0}g.map\u{a0}", "s=\"\u{1f600} sourceMappingURL=x\";", "\u{65e5}a sourceMappingURL=y", "a();//# sourceMappingURL=glued.map", "\u{e9}# sourceMappingURL=z", "// sourceMappingURL=w"];
     for i in 0..n {
         let k = r.below(5); let mut text = String::new();
         for j in 0..k { text.push_str(parts[r.below(parts.len() as u64) as usize]); if j + 1 < k || r.below(2) == 0 { text.push_str(if r.below(2) == 0 { "\n" } else { "\r\n" }); } }
@@ -1163,7 +1164,14 @@ fn run_roundtrip(r: &mut Rng, n: u64) {
             if !all_small(&dm, &small) { return None; }
             let before = dm_full_obs(&dm);
             let mut out1 = vec![]; dm.to_writer(&mut out1).unwrap();
-            let detected = sourcemap::is_sourcemap_slice(&out1);
+            let mut detected = sourcemap::is_sourcemap_slice(&out1) && sourcemap::is_sourcemap(&out1[..]);
+            // the same map made a little larger than one or two I/O blocks (a source text of the right length), so that its closing brace, or whatever
+            // else the alignment brings there, sits at a multiple of 8192 bytes: still a serialised map, still recognised, by both forms of the predicate
+            if let sourcemap::DecodedMap::Regular(m) = &dm { if m.get_source_count() > 0 {
+                let mut big = m.clone(); big.set_source_contents(0, Some("p")); let mut o = vec![]; big.to_writer(&mut o).unwrap();
+                let want = [8193usize, 16385, 8180 + (i as usize * 7) % 40][(i % 3) as usize];
+                if o.len() < want { big.set_source_contents(0, Some(&"p".repeat(1 + want - o.len()))); let mut o2 = vec![]; big.to_writer(&mut o2).unwrap();
+                    detected = detected && o2.len() == want && sourcemap::is_sourcemap_slice(&o2) && sourcemap::is_sourcemap(&o2[..]); } } }
             let v: serde_json::Value = serde_json::from_slice(&out1).unwrap(); let shape = key_shape(&v, "");
             let mut vals = vec![]; written_values(&v, &dm, &mut vals); let shape = format!("{}\t{}", shape, vals.join("#"));
             let (after, idem) = match sourcemap::decode_slice(&out1) {
